@@ -636,9 +636,11 @@ META = {
                            "kinds: disconnect, looks-like-disconnect-but-alive, ordinary",
                   "listeners": LNAMES, "pool": "QueuePool(5) holding 2 idle older connections + the one in use (two-fault histories: no idle connection, "
                   "so that every reconnect has to open a DBAPI connection)"},
-        "thorough": {"one fault": "histories <=4 for every listener mode x pool_recycle in {-1, %d}; 5 over ALPHABETS[1] without listener" % RECYCLE_LARGE,
-                     "two faults": "histories <=4 over ALPHABETS[2], without listener and flipping listener, both pool_recycle values; 3 over ALPHABETS[1]",
-                     "three faults": "histories of 3 over ALPHABETS[2] without listener / flipping listener, of 4 without listener",
+        "thorough": {"one fault": "histories <=3 for every listener mode x pool_recycle in {-1, %d}; 4 for every listener mode (pool_recycle -1) and, "
+                                  "without listener / flipping listener, pool_recycle set; 5 over ALPHABETS[1] without listener" % RECYCLE_LARGE,
+                     "two faults": "histories <=3 over ALPHABETS[2] without listener / flipping listener, both pool_recycle values, with 2 and with 0 idle "
+                                   "connections; 3 over ALPHABETS[1]; 4 over ALPHABETS[2] without listener",
+                     "three faults": "histories of 3 over ALPHABETS[2] without listener / flipping listener",
                      "fault": "as quick", "listeners": LNAMES, "pool": "as quick"},
     },
     "outside": [
@@ -682,7 +684,7 @@ def harnesses(tier: str) -> List[Harness]:
             per_n[1] += _slices(1, 0, listener, recycle, 1, False)
             per_n[2] += _slices(2, 0, listener, recycle, 1, False)
             per_n[3] += _slices(3, 0, listener, recycle, 1, True)
-            if not q:
+            if not q and (recycle == -1 or listener in (L_NONE, L_FLIP)):
                 per_n[4] += _slices(4, 0, listener, recycle, 1, True)
     if q:
         per_n[4] += _slices(4, 1, L_NONE, RECYCLE_LARGE, 1, True)
@@ -693,11 +695,10 @@ def harnesses(tier: str) -> List[Harness]:
             for recycle in (-1, RECYCLE_LARGE):
                 per_n[2] += _slices(2, 2, listener, recycle, 2, False)
                 per_n[3] += _slices(3, 2, listener, recycle, 2, True)
-                per_n[4] += _slices(4, 2, listener, recycle, 2, True)
             per_n[3] += _slices(3, 1, listener, -1, 2, True)
             per_n[3] += _slices(3, 2, listener, -1, 2, True, idle=0)
             per_n[3] += _slices(3, 2, listener, -1, 3, True)
-        per_n[4] += _slices(4, 2, L_NONE, -1, 3, True)
+        per_n[4] += _slices(4, 2, L_NONE, -1, 2, True)
     return [Harness("disconnect_history_n%d" % n, H_DISC[n], sl, budget_s=150 if q else 800) for n, sl in per_n.items() if sl]
 
 
